@@ -28,9 +28,6 @@ RULES = {
   # ---- genuine defects (DESIGN §6; reproduced against the pristine tree)
   ("parsers::Buffer::scroll_left|", "known", "CSI Pn SP @ on rows not yet allocated / columns beyond the row's length: unguarded lines[i], chars.insert/remove"),
   ("parsers::Buffer::scroll_right|", "known", "CSI Pn SP A on rows not yet allocated / columns beyond the row's length: unguarded lines[i], chars.insert/remove"),
-  ("handle_osc_hyperlinks|S4|unwrap(pop(", "known", "OSC 8 ; ; ST with no open hyperlink: hyper_links.pop().unwrap() on an empty stack"),
-  ("parse_osc|S4|unwrap(get(&(next(&iter) as Some).0, 1))", "known", "OSC 4 ; ; rgb:.. : capture group 1 of OSC_PALETTE is optional ((\\d+)?) and is unwrapped"),
-  ("parse_ansi_music|S1|bounds(84", "known", "ANSI music: repeated '+'/'#' raise the note index past FREQ's 84 entries (FREQ[n + octave*12])"),
   ("fonts::BitFont::from_bytes|", "known", "custom font DCS (CTerm:Font) with a payload shorter than the magic bytes: data[0..2] / data[0..4]"),
   ("fonts::BitFont::load_psf1|", "known", "custom font DCS with a truncated PSF1 header: data[2], data[3]"),
   ("fonts::BitFont::load_psf2|", "known", "custom font DCS with a truncated PSF2 header / header_size beyond the data"),
@@ -61,8 +58,6 @@ RULES["C02"] = [
   ("IceDraw as formats::OutputFormat>::load_buffer|S2|index(&*data, Range{o, (o + 48)})", "known", "IDF file whose palette block (48 bytes after the font) is missing"),
   ("load_buffer|S4|unwrap(from_bytes('', &*", "reviewed", "BitFont::from_bytes on an embedded font constant (include_bytes! of a PSF/raw font shipped with the crate): the bytes are a valid font, so the Result is Ok"),
   ("TundraDraw as formats::OutputFormat>::load_buffer|S2|index(&*data, RangeFrom{o})", "known", "Tundra position record (cmd 1) truncated: o += 1 / o += 4 and then &data[o..] with o past the end (e.g. '\\x18TUNDRA24\\x01' + fewer than 8 bytes)"),
-  ("buffers::Buffer::from_bytes|S2|index(&*bytes, RangeTo{len})", "known", "a file that consists of exactly the 128-byte SAUCE record: SauceData::extract computes offset = len - 1 with len = 0 (wraps in release, overflow panic in debug), sauce_header_len becomes data.len() + 1 and `len -= sauce_header_len` wraps: &bytes[..usize::MAX]"),
-  ("buffers::Buffer::from_bytes|S4|unwrap(extension(", "known", "file name without an extension: file_name.extension().unwrap()"),
   ("palette_handling::Palette::load_palette|S5|", "known", "PaletteFormat::Ase reaches todo!()"),
   ("tdf_font::TheDrawFont::from_tdf_bytes|", "known", "TDF file truncated inside a font header / glyph table / glyph: " + LOADER),
   ("sauce_mod::SauceString::<LEN, EMPTY>::read|", "reviewed", "read is only called from SauceData::extract on &data[o..] with o = len-128 + the fixed field offsets (record fields sum to 128 and len >= 128 is checked first), and on 64-byte comment lines inside the comment block whose start is checked by the signed guard"),
